@@ -1034,7 +1034,30 @@ func runC20(b *runner.Batch) {
 		default:
 			e.seq++
 			v := []byte(fmt.Sprintf("%d", e.seq))
-			e.cfgOp(r.IntN(2) == 0, runner.Pick(r, e.cfgKeys[:5]), v, e.pickAlpha(8))
+			nmSide, key := r.IntN(2) == 0, runner.Pick(r, e.cfgKeys[:5])
+			if r.IntN(4) == 0 {
+				// a value that differs from the stored one only in bytes that do not change it as a number (sign
+				// extension: 04 / 0400, ff / ffff, empty / 00), the stored value once more, or one of the fixed-width
+				// forms network parameters come in (seeded change C20-8: "already in effect" decided numerically)
+				cur := e.nfsCfg[string(key)]
+				if nmSide {
+					cur = e.nmCfg[string(key)]
+				}
+				switch k := r.IntN(5); {
+				case k == 0 && len(cur) > 0 && cur[len(cur)-1]&0x80 == 0:
+					v = append(append([]byte{}, cur...), 0)
+				case k == 1 && len(cur) > 0 && cur[len(cur)-1]&0x80 != 0:
+					v = append(append([]byte{}, cur...), 0xff)
+				case k == 2 && len(cur) > 1 && (cur[len(cur)-1] == 0 && cur[len(cur)-2]&0x80 == 0 || cur[len(cur)-1] == 0xff && cur[len(cur)-2]&0x80 != 0):
+					v = append([]byte{}, cur[:len(cur)-1]...)
+				case k == 3:
+					v = append([]byte{}, cur...)
+				default:
+					v = runner.Pick(r, [][]byte{{}, {0}, {0, 0, 0, 4}, {0, 0, 0, 4, 0, 0, 0, 0}, {0xff}, {0xff, 0xff}, {1}, {1, 0}})
+				}
+				b.Hit("config-value-numerically-equal-or-identical")
+			}
+			e.cfgOp(nmSide, key, v, e.pickAlpha(8))
 		}
 		b.State(fmt.Sprintf("rep%d aud%d est%d", len(e.reps)/4, len(e.audits)/2, len(e.ests)))
 	}
